@@ -12,10 +12,13 @@ LEVEL = "exploration"
 EXHAUSTIVE = True
 RULE = ("Exhaustive: every effectful built-in (fs::read_file, read_file_bytes, write_file, write_bytes, copy_file, "
         "remove_file, list_directory, create_dir, remove_dir, set_working_directory; Path::exists, Path::info; "
-        "shell::run; read_line) x argument variants (well-typed targeting canary files, wrong-typed, wrong arity) x 7 "
-        "position classes (top level, after harmless code, inside a function, inside a closure passed to map, inside "
-        "a method, as an argument of another call, inside a test body) x {playground-run, sandboxed-test}; random "
-        "combinations of several calls. Environment oracle: a scratch directory with canary files and canary "
+        "shell::run; read_line) x argument variants (well-typed targeting canary files, wrong-typed, wrong arity) x 18 "
+        "position classes: 7 where the call's value is used (top level, after harmless code, inside a function, "
+        "inside a closure passed to map, inside a method, as an argument of another call, inside a function called "
+        "from a test) and 11 where it is discarded (a statement followed by other code at top level, in a function / "
+        "closure / method body, in an if / for / while / match-arm / let-block body, in a function called from a test, "
+        "directly in a test body) x {playground-run, sandboxed-test}; random sequences of several calls, each used or "
+        "discarded. Environment oracle: a scratch directory with canary files and canary "
         "executables first on PATH (each drops a marker when started); its tree (names and content hashes) must be "
         "identical afterwards and the marker absent; stdin is a pipe holding a recognisable token that must not "
         "appear in the output. Result oracle: a reached, well-typed effectful call ends the evaluation with the "
@@ -27,7 +30,7 @@ MANIFEST = dict(
     category="exploration",
     technique="exhaustive enumeration of effectful built-ins x argument variants x call positions under an "
               "effect-monitoring harness (canary files, canary executables, stdin token)",
-    text="~700 sandboxed runs (quick), each in its own monitored scratch directory; any change of the directory "
+    text="~560 sandboxed runs (quick), each in its own monitored scratch directory; any change of the directory "
          "tree, any started process, any consumed stdin, or a missing sandbox error is a violation.",
     note="Trusted: the directory snapshot / marker / token monitoring in gv/sandbox.py.",
     ref="DESIGN.md section 3, C24",
@@ -63,7 +66,10 @@ EFFECTS = [
     ("read_line arity", "read_line(1)", False),
     ("fs::read_file arity", 'fs::read_file(Path{ p: "canary_in.txt" }, 1)', False),
 ]
-POSITIONS = ["top", "after-code", "in-fun", "in-closure", "in-method", "as-arg", "in-test"]
+POSITIONS = ["top", "after-code", "in-fun", "in-closure", "in-method", "as-arg", "in-test",
+             # positions where the call's value is discarded (a statement followed by other code)
+             "top-stmt", "stmt-in-fun", "stmt-in-closure", "stmt-in-method", "stmt-in-if", "stmt-in-for",
+             "stmt-in-while", "stmt-in-match", "stmt-in-block", "stmt-in-test", "stmt-in-test-body"]
 MARK = "REACHED-MARKER"
 
 
@@ -86,6 +92,31 @@ def program(call: str, pos: str):
     if pos == "in-test":
         src = IMPORTS + f"fun target(): String {{\n  {reach}  string_repr({call})\n}}\ntest calls_target {{\n  target()\n}}\n"
         return src, src.index("target()")
+    after = 'println("after the call")\n'
+    if pos == "top-stmt":
+        return IMPORTS + reach + f"{call}\n" + after, None
+    if pos == "stmt-in-fun":
+        return IMPORTS + f"fun doit(): Int {{\n  {reach}  {call}\n  {after}  1\n}}\nprintln(string_repr(doit()))\n", None
+    if pos == "stmt-in-closure":
+        return IMPORTS + f"let rs = [1].map(fun(x: Int): Int {{\n  {reach}  {call}\n  {after}  x\n}})\nprintln(string_repr(rs))\n", None
+    if pos == "stmt-in-method":
+        return IMPORTS + f"method doit(this: Int): Int {{\n  {reach}  {call}\n  {after}  this\n}}\nprintln(string_repr(5.doit()))\n", None
+    if pos == "stmt-in-if":
+        return IMPORTS + f"fun doit(c: Bool): Int {{\n  if c {{\n    {reach}    {call}\n    {after}  }}\n  1\n}}\nprintln(string_repr(doit(True)))\n", None
+    if pos == "stmt-in-for":
+        return IMPORTS + f"fun doit(): Int {{\n  for i in [1, 2] {{\n    {reach}    {call}\n    {after}  }}\n  1\n}}\nprintln(string_repr(doit()))\n", None
+    if pos == "stmt-in-while":
+        return IMPORTS + f"fun doit(): Int {{\n  let n = 0\n  while n < 2 {{\n    n += 1\n    {reach}    {call}\n    {after}  }}\n  n\n}}\nprintln(string_repr(doit()))\n", None
+    if pos == "stmt-in-match":
+        return IMPORTS + f"fun doit(o: Option<Int>): Int {{\n  match o {{\n    Some(v) => {{\n      {reach}      {call}\n      {after}      v\n    }}\n    None => 0\n  }}\n}}\nprintln(string_repr(doit(Some(1))))\n", None
+    if pos == "stmt-in-block":
+        return IMPORTS + f"fun doit(): Int {{\n  let b = {{\n    {reach}    {call}\n    2\n  }}\n  b\n}}\nprintln(string_repr(doit()))\n", None
+    if pos == "stmt-in-test":
+        src = IMPORTS + f"fun target(): Int {{\n  {reach}  {call}\n  {after}  1\n}}\ntest calls_target {{\n  target()\n  assert(1 == 1)\n}}\n"
+        return src, src.index("target()\n  assert")
+    if pos == "stmt-in-test-body":
+        src = IMPORTS + f"test effect_in_body {{\n  {reach}  {call}\n  {after}  assert(1 == 1)\n}}\n"
+        return src, src.index("effect_in_body")
     raise ValueError(pos)
 
 
@@ -128,8 +159,13 @@ def judge(label, well_typed, src, command, r, before, after):
         if "unsafe code in sandboxed mode" not in str(last.get("error")):
             return fail(f"a reached effectful call did not raise the sandbox error [{label.split(' ')[0]}]",
                         f"{what}: final line {last}\n--- output\n{r.out[:400]}\n--- program\n{src}")
-    if well_typed and reached and command == "sandboxed-test":
-        if "unsafe code in sandboxed mode" not in r.out and "sandbox" not in r.out.lower():
+    if command == "sandboxed-test":
+        # a sandboxed test's printed output is not shown; in every test position the call is reached unconditionally
+        reached = True
+    if well_typed and command == "sandboxed-test":
+        vals, _ = r.json_lines()
+        tests = (vals[-1].get("tests") if vals and isinstance(vals[-1], dict) else None) or {}
+        if not tests or any(t.get("description") != "sandboxed" for t in tests.values()):
             return fail(f"a reached effectful call did not raise the sandbox error [{label.split(' ')[0]}]",
                         f"{what}\n--- output\n{r.out[:400]}\n--- program\n{src}")
     return Res(ok=True, nontrivial=bool(well_typed and reached), classes=(f"cmd:{command}", "reached" if reached else "not-reached"))
@@ -138,7 +174,7 @@ def judge(label, well_typed, src, command, r, before, after):
 def check(case, ctx) -> Res:
     label, call, well_typed, pos = case["label"], case["call"], case["well_typed"], case["pos"]
     src, offset = program(call, pos)
-    command = "sandboxed-test" if pos == "in-test" else "playground-run"
+    command = "sandboxed-test" if pos in ("in-test", "stmt-in-test", "stmt-in-test-body") else "playground-run"
     d, r, before, after = run_case(ctx, src, offset, command)
     return judge(label, well_typed, src, command, r, before, after)
 
@@ -154,7 +190,10 @@ def gen_random(r):
     picks = [r.choice(EFFECTS) for _ in range(n)]
     body = IMPORTS
     for i, (label, call, wt) in enumerate(picks):
-        body += f'println("{MARK}")\nlet res_{i} = {call}\nprintln(string_repr(res_{i}))\n'
+        if r.bool():
+            body += f'println("{MARK}")\nlet res_{i} = {call}\nprintln(string_repr(res_{i}))\n'
+        else:
+            body += f'fun discard_{i}(): Int {{\n  println("{MARK}")\n  {call}\n  {i}\n}}\nprintln(string_repr(discard_{i}()))\n'
     return {"label": " + ".join(p[0] for p in picks), "src": body, "well_typed": picks[0][2]}
 
 
